@@ -797,8 +797,52 @@ pub fn check_shape(db: &DB, st: &StateDump, obs: &mut Vec<Obs>, at: usize) {
     }
     match db.get_descriptor(DatabaseDescriptor::SSTables) {
         Ok(s) => {
-            let nlines = s.lines().filter(|l| l.contains(" @ ") || l.contains('[')).count();
-            let _ = nlines;
+            // the SSTables text against the version: per level the same files in the same order with the
+            // same sizes; for keys made of plain characters also the same bounds (user key and sequence
+            // number; other keys are printed lossily and cannot be read back)
+            let simple = |k: &[u8]| !k.is_empty() && k.iter().all(|b| b.is_ascii_alphanumeric() || *b == b'/' || *b == b'-' || *b == b'_');
+            let mut reported: Vec<Vec<String>> = vec![];
+            for line in s.lines() {
+                if line.starts_with("--- Level ") {
+                    reported.push(vec![]);
+                } else if !line.trim().is_empty() {
+                    match reported.last_mut() {
+                        Some(l) => l.push(line.to_string()),
+                        None => reported.push(vec![line.to_string()]),
+                    }
+                }
+            }
+            let mut problem: Option<String> = None;
+            if reported.len() != st.levels.len() {
+                problem = Some(format!("{} levels reported, the version has {}", reported.len(), st.levels.len()));
+            }
+            'outer: for (lvl, files) in st.levels.iter().enumerate() {
+                let lines = reported.get(lvl).cloned().unwrap_or_default();
+                if lines.len() != files.len() {
+                    problem = Some(format!("level {lvl}: {} files reported, the version has {}", lines.len(), files.len()));
+                    break;
+                }
+                for (f, line) in files.iter().zip(lines.iter()) {
+                    let head = format!("{} (size: {})[", f.number, f.size);
+                    if !line.starts_with(&head) || !line.ends_with(']') {
+                        problem = Some(format!("level {lvl}: expected an entry starting with '{head}', found '{}'", line.chars().take(120).collect::<String>()));
+                        break 'outer;
+                    }
+                    if simple(&f.smallest.0) && simple(&f.largest.0) {
+                        let body = &line[head.len()..line.len() - 1];
+                        let want_lo = format!("{} @ {} : ", String::from_utf8_lossy(&f.smallest.0), f.smallest.1);
+                        let want_hi = format!("{} @ {} : ", String::from_utf8_lossy(&f.largest.0), f.largest.1);
+                        let ok = body.starts_with(&want_lo) && body.contains(&format!("..{want_hi}"));
+                        if !ok {
+                            problem = Some(format!("level {lvl} file {}: the version's bounds are [{}@{} .. {}@{}], the descriptor shows '{}'", f.number, String::from_utf8_lossy(&f.smallest.0), f.smallest.1, String::from_utf8_lossy(&f.largest.0), f.largest.1, body.chars().take(260).collect::<String>()));
+                            break 'outer;
+                        }
+                    }
+                }
+            }
+            if let Some(pr) = problem {
+                obs.push(Obs { sig: "c10:sstables-descriptor-differs-from-version".into(), what: format!("the SSTables descriptor does not describe the current version: {pr}"), at });
+            }
         }
         Err(e) => obs.push(Obs { sig: "c10:descriptor-error".into(), what: format!("SSTables failed: {e}"), at }),
     }
